@@ -88,7 +88,7 @@ StepO(toks, s, i, k) == IF IsAT(k) THEN StartBlock(EmitIC(toks, s, i), i, k) ELS
 Step(toks, fe, s, i) ==
     LET k == toks[i].k IN
     IF k = "NL" THEN [s EXCEPT !.line = @ + 1]
-    ELSE IF k \in {"SP", "W", "ESC"} THEN s
+    ELSE IF k \in {"SP", "W", "ESC", "H"} THEN s                 \* not marks ("H" is the word "#")
     ELSE CASE s.ctl = "O" -> StepO(toks, s, i, k)
       [] s.ctl = "A" ->
             IF k # "LB" THEN [s EXCEPT !.ctl = "ERR"]            \* the regex look-ahead guarantees "{"
